@@ -2636,6 +2636,28 @@ func (c *ChannelArbitrator) resolveContract(currentContract ContractResolver) {
 	log.Tracef("ChannelArbitrator(%v): attempting to resolve %T",
 		c.cfg.ChanPoint, currentContract)
 
+	// A contract that is handed to us already resolved was checkpointed as
+	// resolved before a restart, but we stopped before it was removed from
+	// the log. Finish that removal now, otherwise it would stay in the log
+	// forever and the channel would never be marked fully resolved.
+	if currentContract.IsResolved() {
+		log.Debugf("ChannelArbitrator(%v): removing already resolved "+
+			"contract %T from the log", c.cfg.ChanPoint,
+			currentContract)
+
+		err := c.log.ResolveContract(currentContract)
+		if err != nil {
+			log.Errorf("unable to resolve contract: %v", err)
+		}
+
+		select {
+		case c.resolutionSignal <- struct{}{}:
+		case <-c.quit:
+		}
+
+		return
+	}
+
 	// Until the contract is fully resolved, we'll continue to iteratively
 	// resolve the contract one step at a time.
 	for !currentContract.IsResolved() {
